@@ -13,7 +13,7 @@ ID = 'C02'
 LEVEL = 'exploration'
 RULE = ('Programs = trees of phases/sequences/groups/subtests/branches/checkpoints with per-invocation behaviour '
         'scripts (strict grammar: the sub-language on which docs/event_sequence.md is unambiguous), drawn by a '
-        'recursive Hypothesis strategy (<=14 nodes, depth<=3) plus ALL trees with k leaves over a 9-letter leaf '
+        'recursive Hypothesis strategy (<=14 nodes, depth<=3) plus ALL trees with k leaves over a 10-letter leaf '
         'alphabet x all structure shapes (quick k<=2 complete and k=3 sharded sample, thorough k<=3 complete).  Each program is executed through the real '
         'Test.execute() and compared with an independent reference interpreter: body/run_if/diagnoser event order, '
         'phase and checkpoint records as sequences, branch and subtest records as multisets, diagnoses.  '
@@ -122,6 +122,15 @@ def plan(tier, seed):
     for s in which:
       jobs.append({'kind': 'enum', 'name': 'enum%d.%d.%d' % (k, md, s), 'k': k, 'maxdepth': md, 'shard': s,
                    'nshards': nsh, 'complete': run == 'all', 'alphabet': alphabet})
+  # every small tree placed into every context (subtest after a failure, teardown of a failed-subtest group, ...)
+  if tier == 'quick':
+    ctx_spaces = [(1, 2, 1, 'all'), (2, 1, 64, 16)]
+  else:
+    ctx_spaces = [(1, 2, 1, 'all'), (2, 1, 16, 'all'), (2, 2, 512, 32)]
+  for k, md, nsh, run in ctx_spaces:
+    which = range(nsh) if run == 'all' else [(seed * run + s) % nsh for s in range(run)]
+    for s in which:
+      jobs.append({'kind': 'ctx', 'name': 'ctx%d.%d.%d' % (k, md, s), 'k': k, 'maxdepth': md, 'shard': s, 'nshards': nsh, 'complete': run == 'all'})
   return jobs
 
 
@@ -133,6 +142,16 @@ def run_job(job, acct):
   elif job['kind'] == 'hyp':
     hyp.search(acct, progs.programs(strict=job['strict'], with_test_start=True), lambda p: check(p, job['strict']),
                seed=job['hseed'], max_examples=job['n'], known=known)
+  elif job['kind'] == 'ctx':
+    for i, (cname, prog) in enumerate(progs.enumerate_in_contexts(job['k'], job['maxdepth'])):
+      if i % job['nshards'] != job['shard']:
+        continue
+      r = check(prog)
+      acct.case(prog, r.nontrivial, r.classes + ['ctx:' + cname])
+      for sig, detail in r.violations:
+        (acct.known if sig in known else acct.violation)(sig, prog, detail)
+    if job['shard'] == 0 and job['complete']:
+      acct.exhaustive_parts.append('all trees with k=%d leaves (depth<=%d) placed into each of %d contexts' % (job['k'], job['maxdepth'], len(progs.CONTEXTS)))
   elif job['kind'] == 'enum':
     n = 0
     for i, prog in enumerate(progs.enumerate_programs(job['k'], job['maxdepth'], job['alphabet'])):
